@@ -184,7 +184,12 @@ def pp_storm(rng):
               "(", "a,b", "A(1)", "GE(a,1)", "type(t)", "1 \\", "defined(A)", "!A", "__LINE__"]
     conds = ["{n}", "{n}(3,2)", "defined({n})", "defined {n}", "!defined({n})", "{n} > 1", "{n} == {m}",
              "!{n}", "{n} && {m}", "{n} || defined({m})", "({n}", "{n} ==", "{n}(1", "{n}()", "1", "0",
-             "{n}({m})", "{n} + {m}(2) > 3", "-{n}", "{n} {m}"]
+             "{n}({m})", "{n} + {m}(2) > 3", "-{n}", "{n} {m}",
+             # conditions whose evaluation overflows, exhausts memory or the stack
+             "1" + "0" * 400 + " / 3 > {n}", "1" + "0" * 320 + ".0 * 10 > 1", "2 ** 2 ** 2 ** 2 ** 2 ** 2 > {n}",
+             "\"x\" * 99999999999999999999", "{n} << 9999999999", " + ".join(["1"] * 1200) + " > {n}",
+             "(" * 300 + "{n}" + ")" * 300, " && ".join(["{n}"] * 900), "1 / 0", "1 % 0", "{n} / ({m} - {m})",
+             "-" * 2000 + "1", "!" * 1500 + "{n}"]
     ls = []
     depth = 0
     for _ in range(rng.randint(6, 30)):
